@@ -677,6 +677,22 @@ Proof.
       * rewrite Hrun'. now rewrite Ef.
 Qed.
 
+(* the bound of one step follows from the bound at the end of the history (used again by ListingProps) *)
+Lemma step_top : forall o r s rl' seen emitted,
+  0 <= a_base s -> a_pc s < B32 -> op_ok o -> (match o with OSetBase _ => fresh s | _ => True end) ->
+  base_once (seen || is_sb o) (emitted || emits o) r = true ->
+  a_pc (assemble_from (astep o s) (accepted r rl')) < B32 -> a_pc (astep o s) < B32.
+Proof.
+  intros o r s rl' seen emitted Hb0 Hs Hok Hfr Hb' Htop.
+  destruct (emits o) eqn:Eem.
+  - rewrite orb_true_r in Hb'. apply base_once_no_sb in Hb'.
+    destruct (assemble_mono (accepted r rl') (astep o s)) as [M1 M2]; [now apply accepted_Forall|].
+    unfold a_pc in *. lia.
+  - destruct (is_sb o) eqn:Esb.
+    + destruct o; try discriminate. destruct Hfr as (Hi & _). unfold a_pc. simpl. rewrite Hi, zlen_nil. simpl in Hok. lia.
+    + now rewrite astep_pc_quiet by assumption.
+Qed.
+
 Lemma Rel_init : forall target g, Rel a_init (new_em target g).
 Proof.
   intros target g. constructor; cbn; try lia; try reflexivity; try constructor.
